@@ -243,11 +243,13 @@ class _TickingClock:
         return Instant._ctor(days=t // NPD, nano_of_day=t % NPD)
 
 
-@lemma({"d": int, "n": int, "step": int, "o": int}, params=["zoned", "offset", "local", "date", "time", "instant"], budget=120, per_path=30,
+@lemma({"d": int, "n": int, "step": int, "o": int}, params=[f"{k}@{i}" for k in ("zoned", "offset") for i in range(5)] + ["local", "date", "time", "instant"], budget=120, per_path=30,
        bounds="ZonedClock over a clock that advances by ANY step 0..2 days per read (auto-advance model), a fixed-offset zone (5 offsets in "
               "+-18h) and the DayCalendar: each getter reads the wrapped clock exactly as one read of the model - its result is the rendering "
-              "of the value of ONE read (the first), and a following read sees the clock advanced by one step only")
+              "of the value of ONE read (the first), and a following read sees the clock advanced by one step only (the zoned and offset getters: "
+              "one instance per offset - with the offset symbolic one query sits at the solver's time limit)")
 def zoned_clock_ticking(P):
+    P, _, fixed = P.partition("@")
     from props import daycal
     cal = daycal.host("Coptic")
     offsets = [-64800, -3600, 0, 19800, 64800]
@@ -258,6 +260,9 @@ def zoned_clock_ticking(P):
         assume(0 <= n < NPD)
         assume(0 <= step <= 2 * NPD)
         assume(0 <= o < len(offsets))
+        if fixed:
+            assume(o == int(fixed))
+            o = int(fixed)
         zone, off = zones[int(o)], offsets[int(o)]
         t0 = d * NPD + n
         clock = _TickingClock(t0, step)
